@@ -380,7 +380,7 @@ def check_enum(cx, fn, rep, facts):
         if tup[0]:
             okp = p['k'] == 'TupleStruct' and len(p['elems']) == 1 and marker_of_pat(p['elems'][0])
             kids = S.kids(a, marker_of_pat(p['elems'][0])) if okp else []
-            wild = [k for k in kids if k.cat == 'patelems' and len(k.ast) == 1 and k.ast[0]['k'] == 'Wild']
+            wild = [k for k in kids if k.ast is not None and k.cat == 'patelems' and len(k.ast) == 1 and k.ast[0]['k'] == 'Wild']
             bind = [k for k in kids if k not in wild]
             okw = False
             if len(wild) == 1:
@@ -388,7 +388,7 @@ def check_enum(cx, fn, rep, facts):
                     if c['k'] == 'for' and c['iter']['k'] == 'Range' and not c['iter']['closed'] and es(c['iter'].get('from')) == '0' and c['iter'].get('to') is not None:
                         if S.tm.term(c['iter']['to'], c['scope']) == ('proj', 0, sel):
                             okw = True
-            okb = len(bind) == 1 and bind[0].cat == 'patelems' and len(bind[0].ast) == 2 and bind[0].ast[1]['k'] == 'Rest' and marker_of_pat(bind[0].ast[0]) \
+            okb = len(bind) == 1 and bind[0].ast is not None and bind[0].cat == 'patelems' and len(bind[0].ast) == 2 and bind[0].ast[1]['k'] == 'Rest' and marker_of_pat(bind[0].ast[0]) \
                 and S.hole_term(bind[0], marker_of_pat(bind[0].ast[0])) == bt and not bind[0].ast[0]['by_ref'] and kids and kids[-1] is bind[0]
             if not (okp and okw and okb):
                 S.bad('SUM-INTO', 'enum-tuple-pattern', 'the tuple pattern is not `index` wildcards, the binder, `..` for the designated field', a)
@@ -396,7 +396,7 @@ def check_enum(cx, fn, rep, facts):
         else:
             okp = p['k'] == 'Struct' and len(p['fields']) == 1 and p['fields'][0]['shorthand'] and marker_of_pat(p['fields'][0]['pat']) and not p['rest']
             kids = S.kids(a, marker_of_pat(p['fields'][0]['pat'])) if okp else []
-            okb = len(kids) == 1 and kids[0].cat == 'fieldpats' and len(kids[0].ast['fields']) == 1 and kids[0].ast['rest'] and kids[0].ast['fields'][0]['shorthand'] \
+            okb = len(kids) == 1 and kids[0].ast is not None and kids[0].cat == 'fieldpats' and len(kids[0].ast['fields']) == 1 and kids[0].ast['rest'] and kids[0].ast['fields'][0]['shorthand'] \
                 and marker_of_pat(kids[0].ast['fields'][0]['pat']) and S.hole_term(kids[0], marker_of_pat(kids[0].ast['fields'][0]['pat'])) == bt
             if not (okp and okb):
                 S.bad('SUM-INTO', 'enum-named-pattern', 'the named pattern is not `{ <designated field name>, .. }`', a)
@@ -500,6 +500,8 @@ def run(cx, tier='quick'):
             rep.checked.append((r, i, v))
             k += 1
     rep.counts['SEL+DUP'] = k
+    from .c13 import include_own_scanners
+    include_own_scanners(cx, facts, rep, ['::into::'])
     rep.floor('SUM-INTO', 8)
     rep.floor('SEL+DUP', 4)
     rep.assumptions += ['type equality is educe\'s documented notion: equality of token strings']
